@@ -619,3 +619,10 @@ Proof. eexists. split; [vm_compute; reflexivity|reflexivity]. Qed.
 
 Lemma race_excluded_when_honest : run true true (init 2) trace_race = None.
 Proof. vm_compute. reflexivity. Qed.
+
+Lemma run_reach wd h n tr : forall m m', reach wd h n m -> run wd h m tr = Some m' -> reach wd h n m'.
+Proof.
+  induction tr as [|a r IH]; intros m m' Hm; cbn.
+  - intros E; inversion E; subst; auto.
+  - destruct (step wd h m a) as [m1|] eqn:Hs; [|discriminate]. apply IH. eapply reach_step; eauto.
+Qed.
